@@ -70,6 +70,48 @@ NEEDS = {
     "C19d": "pp_defs given on the command line and in the file with different contents, then a re-parse of a document",
     "C20c": "an INCLUDE cycle through program units plus a second includer of one cycle member from outside, "
             "resolved in a particular order",
+    "C01e": "a well-formed message that makes the server echo a lone UTF-16 surrogate (only expressible as a "
+            "\\uXXXX escape): responses serialised with ensure_ascii=False cannot be encoded",
+    "C01f": "a request (with id) whose method starts with '$/': dropped without any response",
+    "C02e": "a document or inserted text containing a character str.splitlines() takes for a line break but LSP "
+            "does not (FF, VT, FS/GS/RS, NEL, LS, PS)",
+    "C02f": "document versions that restart after didClose/didOpen below a version seen earlier (the guard "
+            "drops the second-life changes)",
+    "C03e": "LATIN CAPITAL LETTER I WITH DOT ABOVE inside a type keyword at the start of a statement "
+            "(matches re.I, survives upper(): KeyError in the spelling table)",
+    "C03f": "a function-like macro visible and a malformed invocation with a run of >= 25 characters without "
+            "comma or parenthesis (exponential backtracking inside the regex engine, no Python steps)",
+    "C09e": "completion in column 0 / leading blanks of a continuation line behind 'name &' where the name "
+            "completes to a callable: textEdit with negative character offsets",
+    "C09f": "a file rewritten on disk with the same size and the same time stamp (coarse or frozen file-system "
+            "clock), announced by didOpen/didSave/didClose: stale text and tree",
+    "C10e": "a main program without PROGRAM statement that USEs a module, an earlier lookup from it, then a "
+            "change of what is reachable through that module in another file",
+    "C10f": "a file that enters the workspace after start-up (created, moved) while an unchanged file holds a "
+            "dangling link into it (EXTENDS, bindings, submodule parent)",
+    "C15e": "a type defined inside a submodule that EXTENDS a type of the parent module; query on an inherited "
+            "component; start-up versus particular opening orders",
+    "C15f": "a name with two candidate definitions of different precedence (procedure-local USE ... ONLY hiding a "
+            "host-module entity), linking file opened before the preferred definition's file",
+    "C16e": "a path that Unicode NFC normalisation changes (decomposed accent, Angstrom/Ohm sign, compatibility "
+            "ideographs)",
+    "C16f": "same mechanism as C01c, produced independently: unbuffered stdin in main(), a body delivered in "
+            "pieces or larger than one read",
+    "C17e": "#if condition compiled and evaluated after assert-based whitelisting (the asserts vanish under "
+            "python -O); flagged as evaluation of file text at any optimisation level",
+    "C17f": "a configuration file with the new log_config option carrying a dictConfig '()' factory or a "
+            "FileHandler, debug log enabled",
+    "C18e": "two regex builds in one process: incl_suffixes given on the command line and overridden by the "
+            "configuration file (module-level list extended in place)",
+    "C18f": "no source_dirs, an incl_suffixes entry that is not a plain '.ext' and a directory whose sources all "
+            "carry it",
+    "C19e": "a configuration file outside the root directory (-c conf/x.json or absolute) with relative "
+            "source_dirs/excl_paths/include_dirs entries",
+    "C19f": "sort_keywords differing between file and command line, a re-parse inside the server process, then "
+            "hover on a declaration whose attributes are not in canonical order",
+    "C20e": "a submodule parent cycle plus a submodule hanging off it (rho shape) and a lookup from inside the "
+            "latter that reaches the ancestor search",
+    "C20f": "an EXTENDS ring and a member-access chain of >= 3 parts whose middle part is no component",
     "C20b": "a '=>' link cycle across two modules that USE each other, a didChange of the file whose link was "
             "refused at start-up, then a query",
 }
